@@ -22,6 +22,7 @@ import (
 	"fmt"
 	"os"
 	"runtime"
+	"strconv"
 	"strings"
 	"sync/atomic"
 	"time"
@@ -152,7 +153,7 @@ type res struct {
 
 func mix(k uint64) uint64 { return (k^0x9e3779b97f4a7c15)*0xbf58476d1ce4e5b9 + 1 }
 
-func token(i int) int { return i*2654435761 + 12345 }
+func token(i int) int { return int(uint32(i)*2654435761>>1) + 12345 } // positive on 32-bit ints too
 
 // lateState outlives the run: it is looked at again once the whole group is over.
 type lateState struct {
@@ -830,7 +831,14 @@ func main() {
 		r.Assume("GOMAXPROCS changes only where the monitor changes it itself (group \"procs\", which runs alone); 'GOMAXPROCS when <= 0' is judged against the value in force when the call is made")
 
 		grid := buildGrid(r.Rand("grid"))
+		// 32-bit variant ("386", no race detector): a reduced set of groups - the main grid, finish,
+		// deadline and toggle. What needs 64-bit ints (parallelism x n >= 2^31) or the race detector
+		// runs in the other variants.
+		small := r.VariantHas("386") || strconv.IntSize == 32
 		nruns := r.Scale(2000, 4*len(grid))
+		if small {
+			nruns = r.Scale(600, 3000)
+		}
 		var kept []*retained
 		r.Cases("run", nruns, 1, func(c *vkit.Case) {
 			if r.NViolations() >= 5 {
@@ -860,6 +868,9 @@ func main() {
 				large = append(large, combo{api: []int{apiDo, apiDoContext, apiMap, apiMapContext}[(i+rep)%4], n: n, par: 2 + (i+rep)%3, lat: latUniform, special: spLarge})
 			}
 		}
+		if small {
+			large = nil
+		}
 		r.Cases("large", len(large), 1, func(c *vkit.Case) {
 			if r.NViolations() >= 5 {
 				return
@@ -883,6 +894,9 @@ func main() {
 		addRamp(64, r.Scale(rampTrials64, 600))
 		addRamp(256, r.Scale(rampTrials256, 400))
 		addRamp(32, r.Scale(rampTrials32, 400))
+		if small {
+			ramp = nil
+		}
 		r.Cases("ramp", len(ramp), 1, func(c *vkit.Case) {
 			if r.NViolations() >= 5 {
 				return
@@ -909,6 +923,9 @@ func main() {
 				scale = append(scale, lightCase{api: apiDoContext, par: pn[0], n: pn[1]})
 			}
 		}
+		if small {
+			scale = nil
+		}
 		r.Cases("scale", len(scale), 1, func(c *vkit.Case) {
 			if r.NViolations() >= 5 {
 				return
@@ -917,12 +934,21 @@ func main() {
 		})
 
 		// The caller's context ends at or around the moment the last call finishes (finish.go).
-		finish := finishCases(r, r.Rand("finish"))
+		finish := finishCases(r, r.Rand("finish"), small)
 		r.Cases("finish", len(finish), 1, func(c *vkit.Case) {
 			if r.NViolations() >= 5 {
 				return
 			}
 			executeFinish(c, finish[c.Index])
+		})
+
+		// Caller contexts with a deadline that ended for another reason (deadline.go).
+		deadline := deadlineCases(r.Scale(1, 4))
+		r.Cases("deadline", len(deadline), 1, func(c *vkit.Case) {
+			if r.NViolations() >= 5 {
+				return
+			}
+			executeDeadline(c, deadline[c.Index])
 		})
 
 		// GOMAXPROCS changed inside the process. "GOMAXPROCS when <= 0" means the value in force when
@@ -940,6 +966,9 @@ func main() {
 					procs = append(procs, combo{api: api, n: []int{64, 200}[(rep+api)%2], par: []int{0, -1}[(rep+api+gi)%2], lat: []int{latUniform, latDecreasing}[(api+g+rep)%2], special: spProcs, procs: g})
 				}
 			}
+		}
+		if small {
+			procs = nil
 		}
 		r.Cases("procs", len(procs), 1, func(c *vkit.Case) {
 			if r.NViolations() >= 5 {
@@ -972,7 +1001,11 @@ func main() {
 		var flips atomic.Int64
 		nToggle := 0
 		for si, vals := range toggleSets {
-			tcs := toggleCases(r.Rand("toggle", si), vals, inherited, r.Scale(500, 6000))
+			ntog := r.Scale(500, 6000)
+			if small {
+				ntog = r.Scale(200, 1000)
+			}
+			tcs := toggleCases(r.Rand("toggle", si), vals, inherited, ntog)
 			nToggle += len(tcs)
 			var stop atomic.Bool
 			tdone := make(chan struct{})
@@ -1009,7 +1042,11 @@ func main() {
 		}
 		r.Count("final sweep", "runs re-checked", len(kept))
 
-		if !r.Replaying() {
+		if small && !r.Replaying() {
+			r.Floor("runs of the main grid in the 32-bit variant", r.Table("runs by function", "Do")+r.Table("runs by function", "Map"), 50)
+			r.Floor("32-bit variant: runs while GOMAXPROCS was being flipped", r.Table("runs", "while GOMAXPROCS was being flipped by another goroutine"), int64(nToggle))
+		}
+		if !small && !r.Replaying() {
 			q := int64(r.Scale(1, 10))
 			for a := range apiNames {
 				r.Floor("runs of "+apiNames[a], r.Table("runs by function", apiNames[a]), 60*q)
@@ -1040,6 +1077,7 @@ func main() {
 			r.Floor("runs in which an outside goroutine cancels around the end of the last call", r.Table("finish runs", "outside goroutine cancels around the end of the last call"), int64(r.Scale(2400, 40000)))
 			r.Floor("runs while GOMAXPROCS was being flipped by another goroutine", r.Table("runs", "while GOMAXPROCS was being flipped by another goroutine"), int64(nToggle))
 			r.Floor("GOMAXPROCS flips while the toggle group ran", r.Table("toggle", "GOMAXPROCS flips while the group ran"), int64(nToggle))
+			r.Floor("runs with a caller ctx whose deadline has passed but whose Err() is Canceled", r.Table("runs", "caller ctx has a passed deadline but Err() == Canceled"), int64(len(deadline)*4/6))
 			r.Floor("product-scale runs", r.Table("runs", "product scale (parallelism x n >= 2^32)"), int64(len(scale)))
 			r.Floor("runs after GOMAXPROCS was changed in-process", r.Table("runs", "after GOMAXPROCS was changed in-process"), int64(len(procs)))
 		}
